@@ -25,27 +25,105 @@ theorem floor_add_half (q : Rat) :
 
 theorem frac_zero_of_zero : (0 : Rat) - (((0 : Rat).floor : Int) : Rat) = 0 := by decide +kernel
 
+/-! ### the sign of a zero result (§4.4: "If the argument is less than zero, but greater than or
+    equal to -0.5, then negative zero is returned.") -/
+
+/-- §4.4: negative zero for arguments in [-0.5, 0) -/
+theorem spec_round_negative_zero (q : Rat) (h1 : -(1 : Rat) / 2 ≤ q) (h2 : q < 0) :
+    Spec.round (.fin q) = .nzero := by
+  simp [Spec.round, h1, h2]
+
+/-- the code: negative zero for arguments in (-0.5, 0) -/
+theorem model_round_negative_zero (q : Rat) (h1 : -(1 : Rat) / 2 < q) (h2 : q < 0) :
+    Model.round (.fin q) = .nzero := by
+  simp [Model.round, h1, h2]
+
+/-- outside [-0.5, 0) the Recommendation's `round` is `⌊q + ½⌋` -/
+theorem spec_round_outside (q : Rat) (h : ¬ (-(1 : Rat) / 2 ≤ q ∧ q < 0)) :
+    Spec.round (.fin q) = .fin (((q + (1 : Rat) / 2).floor : Int) : Rat) := by
+  simp only [Spec.round, Bool.and_eq_true, decide_eq_true_eq, h]
+  rfl
+
+/-- outside (-0.5, 0) the code's `getRound` is "floor, plus one when the fraction says so" -/
+theorem model_round_outside (q : Rat) (h : ¬ (-(1 : Rat) / 2 < q ∧ q < 0)) :
+    Model.round (.fin q) =
+      (if (1 : Rat) / 2 < q - ((q.floor : Int) : Rat) ||
+          (q - ((q.floor : Int) : Rat) == (1 : Rat) / 2 && 0 < q)
+       then .fin ((q.floor + 1 : Int) : Rat) else .fin ((q.floor : Int) : Rat)) := by
+  simp only [Model.round, Bool.and_eq_true, decide_eq_true_eq, h]
+  rfl
+
+theorem floor_neg_half : (-(1 : Rat) / 2).floor = -1 := by decide +kernel
+
+/-- a result of `⌊q + ½⌋ = 0` for negative `q` happens exactly on [-0.5, 0) -/
+theorem floor_add_half_eq_zero_of_neg (q : Rat) (h1 : -(1 : Rat) / 2 ≤ q) (h2 : q < 0) :
+    (q + (1 : Rat) / 2).floor = 0 := by
+  apply floor_eq
+  · simp only [Rat.intCast_ofNat]; grind
+  · simp only [Rat.intCast_ofNat]; grind
+
+/-- as a rational (both zeros are 0) the Recommendation's `round` is `⌊q + ½⌋` for EVERY `q` -/
+theorem spec_round_toRat (q : Rat) :
+    (Spec.round (.fin q)).toRat? = some (((q + (1 : Rat) / 2).floor : Int) : Rat) := by
+  by_cases h : -(1 : Rat) / 2 ≤ q ∧ q < 0
+  · rw [spec_round_negative_zero q h.1 h.2, floor_add_half_eq_zero_of_neg q h.1 h.2]
+    rfl
+  · rw [spec_round_outside q h]; rfl
+
+/-- as a rational the code's `getRound` is "floor, plus one when the fraction says so" for EVERY `q` -/
+theorem model_round_toRat (q : Rat) :
+    (Model.round (.fin q)).toRat? =
+      some (if (1 : Rat) / 2 < q - ((q.floor : Int) : Rat) ||
+              (q - ((q.floor : Int) : Rat) == (1 : Rat) / 2 && 0 < q)
+            then ((q.floor + 1 : Int) : Rat) else ((q.floor : Int) : Rat)) := by
+  by_cases h : -(1 : Rat) / 2 < q ∧ q < 0
+  · rw [model_round_negative_zero q h.1 h.2]
+    have hf : q.floor = -1 := by
+      apply floor_eq
+      · show ((-1 : Int) : Rat) ≤ q
+        have : ((-1 : Int) : Rat) = -1 := by decide +kernel
+        rw [this]; grind
+      · show q < ((-1 : Int) : Rat) + 1
+        have : ((-1 : Int) : Rat) + 1 = 0 := by decide +kernel
+        rw [this]; exact h.2
+    rw [hf]
+    have e1 : (((-1 : Int) : Rat)) = -1 := by decide +kernel
+    have e2 : (((-1 + 1 : Int)) : Rat) = 0 := by decide +kernel
+    have hd : (1 : Rat) / 2 < q - ((-1 : Int) : Rat) := by rw [e1]; grind
+    simp only [hd, decide_true, Bool.true_or, if_true, e2]
+    rfl
+  · rw [model_round_outside q h]
+    split <;> rfl
+
 theorem round_partial (x : Num) (h : Spec.isNegativeTie x = false) : Model.round x = Spec.round x := by
   cases x with
   | fin q =>
-    simp only [Model.round, Spec.round, floor_add_half]
-    simp only [Spec.isNegativeTie, Bool.and_eq_false_iff, decide_eq_false_iff_not, beq_eq_false_iff_ne] at h
-    have ⟨h1, h2⟩ := floor_bounds q
-    have hz : q = 0 → q - ((q.floor : Int) : Rat) ≠ (1 : Rat) / 2 := by
-      intro h; subst h; decide +kernel
-    generalize q.floor = f at *
-    by_cases hd : (1 : Rat) / 2 < q - (f : Rat)
-    · have : (1 : Rat) / 2 ≤ q - (f : Rat) := Rat.le_of_lt hd
-      simp [hd, this]
-    · by_cases he : q - (f : Rat) = (1 : Rat) / 2
-      · have hq : 0 < q := by
-          rcases h with h | h
-          · have : q ≠ 0 := fun h' => absurd he (hz h')
-            grind
-          · exact absurd he h
-        simp [he, hq]
-      · have : ¬ (1 : Rat) / 2 ≤ q - (f : Rat) := by grind
-        simp [hd, he, this]
+    by_cases hlo : -(1 : Rat) / 2 < q ∧ q < 0
+    · rw [model_round_negative_zero q hlo.1 hlo.2,
+        spec_round_negative_zero q (Rat.le_of_lt hlo.1) hlo.2]
+    · have hne : q ≠ -(1 : Rat) / 2 := by
+        intro e; subst e
+        revert h; decide +kernel
+      have hlo' : ¬ (-(1 : Rat) / 2 ≤ q ∧ q < 0) := by grind
+      rw [model_round_outside q hlo, spec_round_outside q hlo']
+      simp only [floor_add_half]
+      simp only [Spec.isNegativeTie, Bool.and_eq_false_iff, decide_eq_false_iff_not, beq_eq_false_iff_ne] at h
+      have ⟨h1, h2⟩ := floor_bounds q
+      have hz : q = 0 → q - ((q.floor : Int) : Rat) ≠ (1 : Rat) / 2 := by
+        intro h; subst h; decide +kernel
+      generalize q.floor = f at *
+      by_cases hd : (1 : Rat) / 2 < q - (f : Rat)
+      · have : (1 : Rat) / 2 ≤ q - (f : Rat) := Rat.le_of_lt hd
+        simp [hd, this]
+      · by_cases he : q - (f : Rat) = (1 : Rat) / 2
+        · have hq : 0 < q := by
+            rcases h with h | h
+            · have : q ≠ 0 := fun h' => absurd he (hz h')
+              grind
+            · exact absurd he h
+          simp [he, hq]
+        · have : ¬ (1 : Rat) / 2 ≤ q - (f : Rat) := by grind
+          simp [hd, he, this]
   | _ => rfl
 
 end Xsel.NumL
